@@ -27,6 +27,9 @@ func c01(c *Ctx) {
 		rng := c.Rng(i)
 		class := classFor(i, rng, tallEvery)
 		mode := modeFor(i, rng)
+		if class == "huge" {
+			mode = hugeMode(i)
+		}
 		if class == "tall" {
 			mode = []uint32{1025, 1026, 1024, 64}[(i/tallEvery)%4]
 		}
@@ -94,6 +97,9 @@ func c02(c *Ctx) {
 			class = "stored"
 		}
 		mode := modeFor(i, rng)
+		if class == "huge" {
+			mode = hugeMode(i)
+		}
 		b := model.Gen(rng, class, model.GenOpts{Syn: rng.Intn(8) == 0, Vec: VecBuild && rng.Intn(3) == 0})
 		if i%80 == 79 {
 			// record-header lengths across multiples of 128
@@ -301,6 +307,9 @@ func c04(c *Ctx) {
 		rng := c.Rng(i)
 		class := classFor(i, rng, tallEvery)
 		mode := modeFor(i, rng)
+		if class == "huge" {
+			mode = hugeMode(i)
+		}
 		o4 := model.GenOpts{Syn: rng.Intn(3) == 0, Vec: VecBuild && rng.Intn(2) == 0}
 		if class == "tall" {
 			// document counts at exact multiples of the doc-value chunk size come round deterministically
